@@ -35,7 +35,7 @@ def pools(c, pset, small=False):
     delta_bits = c['LDelta'] // U
     return dict(VecPool=fs(*vec), ScalarPool=fs(*[dict(re=a, im=b, fb=f, ty=t) for a, b, f, t in scal]),
                 PtScales=set([c['LDelta'], (delta_bits - 15) * U]), VecLens=set([8, 3] if pset in ('S', 'H') else [8]),
-                RotPool=set(ROTS))
+                RotPool=set(ROTS), LdPool=set([0, 1] if pset in ('S', 'H') else [0]))
 
 
 def presets(c, pset):
@@ -48,23 +48,29 @@ def presets(c, pset):
     out = {}
     for keys in ("full", "gal", "none"):
         pre = [dict(op="Reset", keys=keys),
-               dict(op="Load", o=1, v=v1, fb=0, ls=D, lvl=L), dict(op="Load", o=2, v=v2, fb=2, ls=D, lvl=L),
-               dict(op="Load", o=3, v=v1, fb=0, ls=D, lvl=L - c['K']),
+               dict(op="Load", o=1, v=v1, fb=0, ls=D, lvl=L, ld=0), dict(op="Load", o=2, v=v2, fb=2, ls=D, lvl=L, ld=0),
+               dict(op="Load", o=3, v=v1, fb=0, ls=D, lvl=L - c['K'], ld=0),
                dict(op="Mul", a=1, b=dict(k="ct", r=2), o=4, new=True, k=0)]
         out["X-" + keys] = pre
     # Y: a rescaled product (scale ~ Delta, one level down), an upscaled register and a degree-2 register
     out["Y"] = [dict(op="Reset", keys="full"),
-                dict(op="Load", o=1, v=v1, fb=0, ls=D, lvl=L), dict(op="Load", o=2, v=v2, fb=2, ls=D, lvl=L),
+                dict(op="Load", o=1, v=v1, fb=0, ls=D, lvl=L, ld=0), dict(op="Load", o=2, v=v2, fb=2, ls=D, lvl=L, ld=0),
                 dict(op="MulRelin", a=1, b=dict(k="ct", r=2), o=3, new=True, k=0),
                 dict(op="Rescale", a=3, b=dict(k="none"), o=3, new=False, k=0),
                 dict(op="Mul", a=1, b=dict(k="ct", r=1), o=4, new=True, k=0)]
     # Z: a degree-2 product at scale Delta^2 next to degree-1 registers at Delta^2 and Delta^3 (unequal scales, unequal degrees)
     ptD = dict(k="pt", v=v1, fb=0, ls=D, lvl=L)
     out["Z"] = [dict(op="Reset", keys="full"),
-                dict(op="Load", o=1, v=v2, fb=2, ls=D, lvl=L),
+                dict(op="Load", o=1, v=v2, fb=2, ls=D, lvl=L, ld=0),
                 dict(op="Mul", a=1, b=dict(k="ct", r=1), o=2, new=True, k=0),
                 dict(op="Mul", a=1, b=ptD, o=3, new=True, k=0),
                 dict(op="Mul", a=3, b=ptD, o=4, new=True, k=0)]
+    # W: registers of different slot dimensions (sparse sets only): 1 and 3 at the set's dimensions, 2 and 4 at the maximum
+    if pset in ('S', 'H'):
+        out["W"] = [dict(op="Reset", keys="full"),
+                    dict(op="Load", o=1, v=v1, fb=0, ls=D, lvl=L, ld=0), dict(op="Load", o=2, v=v2, fb=2, ls=D, lvl=L, ld=1),
+                    dict(op="Load", o=3, v=v1, fb=0, ls=D, lvl=L - c['K'], ld=0),
+                    dict(op="Load", o=4, v=v2, fb=2, ls=D, lvl=L, ld=1)]
     return out
 
 
@@ -168,7 +174,7 @@ def run_approxeval(ctx, frame):
         stage_specs(d)
         if pi == 0 or not ctx.quick or pset == 'H':
             for pname, prefix in presets(c, pset).items():
-                if ctx.quick and (pname in ('X-gal',) or (pset == 'H' and pname != 'X-full')):
+                if ctx.quick and (pname in ('X-gal',) or (pset == 'H' and pname not in ('X-full', 'W'))):
                     continue
                 small = dict(base, Randomize=False, Depth=len(prefix) + 1, SimLen=0, OpPool=set(ALL_OPS), KeyKinds=set(["full"]), Prefix=prefix, **pools(c, pset, small=True))
                 write_mc(d, 'MC_ApproxEvalGen', 'ApproxEvalGen', small, ['SPECIFICATION GenSpec', 'INVARIANT Emit', 'INVARIANT TypeOK'])
